@@ -6,8 +6,10 @@ import (
 	"fmt"
 	"go/token"
 	"go/types"
+	"golang.org/x/tools/go/ssa"
 	"math"
 	"math/big"
+	"reflect"
 	"strconv"
 	"time"
 )
@@ -365,4 +367,131 @@ func (e *Exec) divTerm(x string, c int64) string {
 		e.solver.send(fmt.Sprintf("(assert (=> (and (bvslt %s #x4000000000000000) (bvsgt %s #xc000000000000000)) (and (bvsle %s %s) (bvslt (bvsub %s %s) %s) (bvslt %s #x4000000000000000) (bvsgt %s #xc000000000000000))))", x, x, cq, x, x, cq, bvConst(c, 64), q, q))
 	}
 	return q
+}
+
+// deepEq: reflect.DeepEqual over interpreter values (structural; symbolic leaves fork).
+func (e *Exec) deepEq(a, b value, seen map[[2]*value]bool) bool {
+	switch x := a.(type) {
+	case iface:
+		y, ok := b.(iface)
+		if !ok {
+			return false
+		}
+		if x.t == nil || y.t == nil {
+			return x.t == nil && y.t == nil
+		}
+		if !sameType(x.t, y.t) {
+			return false
+		}
+		return e.deepEq(x.v, y.v, seen)
+	case *value:
+		y, ok := b.(*value)
+		if !ok {
+			return false
+		}
+		if x == nil || y == nil {
+			return x == y
+		}
+		if x == y {
+			return true
+		}
+		key := [2]*value{x, y}
+		if seen[key] {
+			return true
+		}
+		seen[key] = true
+		return e.deepEq(*x, *y, seen)
+	case structure:
+		y, ok := b.(structure)
+		if !ok || len(x) != len(y) {
+			return false
+		}
+		for i := range x {
+			if !e.deepEq(x[i], y[i], seen) {
+				return false
+			}
+		}
+		return true
+	case array:
+		y, ok := b.(array)
+		if !ok || len(x) != len(y) {
+			return false
+		}
+		for i := range x {
+			if !e.deepEq(x[i], y[i], seen) {
+				return false
+			}
+		}
+		return true
+	case []value:
+		y, ok := b.([]value)
+		if !ok {
+			if ys, isS := b.(symStr); isS {
+				return e.decideVal(e.ropeEq(toRope(x), ys))
+			}
+			return false
+		}
+		if (x == nil) != (y == nil) || len(x) != len(y) {
+			return false
+		}
+		for i := range x {
+			if !e.deepEq(x[i], y[i], seen) {
+				return false
+			}
+		}
+		return true
+	case *amap:
+		y, ok := b.(*amap)
+		if !ok {
+			return false
+		}
+		if (x == nil) != (y == nil) || x.len() != y.len() {
+			return false
+		}
+		if x == nil {
+			return true
+		}
+		for _, en := range x.ents {
+			if en.dead {
+				continue
+			}
+			v, has := y.lookup(e, en.k)
+			if !has || !e.deepEq(en.v, v, seen) {
+				return false
+			}
+		}
+		return true
+	case *ssa.Function:
+		// funcs are deeply equal only when both are nil
+		y, ok := b.(*ssa.Function)
+		return ok && x == nil && y == nil
+	case *closure:
+		return false
+	case timeVal:
+		y, ok := b.(timeVal)
+		return ok && e.decideVal(e.i64(token.EQL, x.ns, y.ns))
+	case *opaque:
+		return a == b
+	case nil:
+		return b == nil
+	}
+	if isSym(a) || isSym(b) {
+		if _, isS := a.(symStr); isS {
+			return e.decideVal(e.ropeEq(toRope(a), toRope(b)))
+		}
+		if _, isS := b.(symStr); isS {
+			return e.decideVal(e.ropeEq(toRope(a), toRope(b)))
+		}
+		return e.decideVal(e.eqValue(symStaticType(types.Typ[types.Int64], a, b), a, b))
+	}
+	if reflect.TypeOf(a) != reflect.TypeOf(b) {
+		return false
+	}
+	return a == b
+}
+
+func init() {
+	intrinsics["reflect.DeepEqual"] = func(fr *frame, args []value) value {
+		return fr.i.ex.deepEq(args[0], args[1], map[[2]*value]bool{})
+	}
 }
